@@ -153,6 +153,9 @@ def month_table_rule(ctx: Ctx, rid: str):
 
 
 def run_extra(ctx: Ctx):
+    # ---------------------------------------------------------------- R14.6 the per-scenario limit objects are complete copies: a limit that stops counting at the declared end depends on where in the calendar that end falls (= C05 R05.7)
+    from .c05 import limit_copy_rule
+    limit_copy_rule(ctx, "R14.6")
     month_table_rule(ctx, "R14.5")
     # ---------------------------------------------------------------- R14.4 answers never come from state that outlives the question
     from .common import process_state_rule
